@@ -26,6 +26,7 @@ import (
 	"net"
 	"net/netip"
 	"net/url"
+	"os"
 	"path"
 	"slices"
 	"strings"
@@ -43,9 +44,12 @@ import (
 	"github.com/AdguardTeam/AdGuardDNS/internal/dnssvc/internal/devicefinder"
 	"github.com/AdguardTeam/AdGuardDNS/internal/dnssvc/internal/ratelimitmw"
 	"github.com/AdguardTeam/AdGuardDNS/internal/geoip"
+	"github.com/AdguardTeam/AdGuardDNS/internal/metrics"
 	"github.com/AdguardTeam/AdGuardDNS/internal/profiledb"
 	"github.com/AdguardTeam/golibs/logutil/slogutil"
 	"github.com/miekg/dns"
+	"github.com/prometheus/client_golang/prometheus"
+	"golang.org/x/crypto/bcrypt"
 	"pgregory.net/rapid"
 	"verif.local/harness/vstat"
 )
@@ -63,6 +67,108 @@ const (
 
 var vc03AuthNames = [...]string{"off", "off+dohflag", "on", "on+dohonly"}
 
+// Stored password hashes of devices with authentication enabled.  All of them
+// are served by the real authenticators of package agdpasswd.
+const (
+	vc03HashValid        = iota // bcrypt hash of Password
+	vc03HashOther               // well-formed bcrypt hash of ANOTHER password
+	vc03HashAllow               // no password configured: agdpasswd.AllowAuthenticator
+	vc03HashEmpty               // empty bytes
+	vc03HashTruncated           // first half of a real hash
+	vc03HashTruncatedOne        // a real hash without its last byte
+	vc03HashForeign             // first byte replaced by '#'
+	vc03HashArgon               // a hash of another scheme
+	vc03HashNewer               // version "$3"
+	vc03HashCost3               // cost below the minimum
+	vc03HashCost32              // cost above the maximum
+	vc03HashKinds
+)
+
+var vc03HashNames = [...]string{
+	"bcrypt", "bcrypt-of-other-password", "allow-all", "empty", "truncated", "truncated-by-one",
+	"foreign-first-byte", "argon2", "newer-version", "cost3", "cost32",
+}
+
+// usable reports whether some password can match the stored hash.
+func vc03HashUsable(kind int) (ok bool) {
+	return kind == vc03HashValid || kind == vc03HashOther || kind == vc03HashAllow
+}
+
+var (
+	vc03BcryptMu    sync.Mutex
+	vc03BcryptCache = map[string][]byte{}
+)
+
+// vc03Bcrypt returns a real minimal-cost bcrypt hash of password.  The salt is
+// random, which no outcome depends on.
+func vc03Bcrypt(password string) (hash []byte) {
+	vc03BcryptMu.Lock()
+	defer vc03BcryptMu.Unlock()
+
+	hash, ok := vc03BcryptCache[password]
+	if !ok {
+		var err error
+		hash, err = bcrypt.GenerateFromPassword([]byte(password), bcrypt.MinCost)
+		if err != nil {
+			panic(fmt.Errorf("vc03: hashing: %w", err))
+		}
+
+		vc03BcryptCache[password] = hash
+	}
+
+	return slices.Clone(hash)
+}
+
+// authenticator returns the real authenticator for the stored hash of d.
+func (d *vc03Dev) authenticator() (a agdpasswd.Authenticator) {
+	good := vc03Bcrypt(d.HashOf)
+	switch d.Hash {
+	case vc03HashValid, vc03HashOther:
+		return agdpasswd.NewPasswordHashBcrypt(good)
+	case vc03HashAllow:
+		return agdpasswd.AllowAuthenticator{}
+	case vc03HashEmpty:
+		return agdpasswd.NewPasswordHashBcrypt([]byte{})
+	case vc03HashTruncated:
+		return agdpasswd.NewPasswordHashBcrypt(good[:len(good)/2])
+	case vc03HashTruncatedOne:
+		return agdpasswd.NewPasswordHashBcrypt(good[:len(good)-1])
+	case vc03HashForeign:
+		return agdpasswd.NewPasswordHashBcrypt(append([]byte("#"), good[1:]...))
+	case vc03HashArgon:
+		return agdpasswd.NewPasswordHashBcrypt([]byte("$argon2id$v=19$m=65536,t=3,p=4$c29tZXNhbHQ$RdescudvJCsgt3ub+b+dWRWJTmaaJObG"))
+	case vc03HashNewer:
+		return agdpasswd.NewPasswordHashBcrypt(append([]byte("$3"), good[2:]...))
+	case vc03HashCost3:
+		return agdpasswd.NewPasswordHashBcrypt(append([]byte("$2a$03$"), good[7:]...))
+	case vc03HashCost32:
+		return agdpasswd.NewPasswordHashBcrypt(append([]byte("$2a$32$"), good[7:]...))
+	default:
+		panic(fmt.Errorf("vc03: hash kind %d", d.Hash))
+	}
+}
+
+// passwordRefusal is the model of the password check for a device with
+// authentication enabled: "" if the supplied password is right.  With a stored
+// hash that nothing can match no password is right; a device without a
+// configured password accepts every supplied password.
+func (d *vc03Dev) passwordRefusal(ui *vc03Userinfo) (why string) {
+	switch {
+	case !ui.PwSet:
+		return "password-unset"
+	case d.Hash == vc03HashAllow:
+		return ""
+	case !vc03HashUsable(d.Hash):
+		return "unusable-hash"
+	case ui.Pw == "":
+		return "password-empty"
+	case ui.Pw != d.HashOf:
+		return "password-wrong"
+	default:
+		return ""
+	}
+}
+
 type vc03Prof struct {
 	ID      string
 	Present bool // false: the database has no such profile (its devices are orphans)
@@ -77,7 +183,9 @@ type vc03Dev struct {
 	Owner     int
 	Attached  bool // listed in the owner's DeviceIDs
 	Auth      int
-	Password  string
+	Password  string // what the device's user believes the password is
+	Hash      int    // how the password hash is stored, see the vc03Hash* constants
+	HashOf    string // the password the stored hash was made from, if it is a real hash
 	Linked    netip.Addr
 	Dedicated []netip.Addr
 	Human     string // lower-case human id, "" if none
@@ -114,6 +222,19 @@ var vc03FaultNames = [...]string{"none", "db-error", "ctx-cancelled"}
 
 // errVC03DB is the generic database failure.
 var errVC03DB = errors.New("model db failure")
+
+// dbErr returns the failure of a faulty database in one of its classes:
+// generic, context deadline, i/o deadline.  None of them is a not-found error.
+func (w *vc03World) dbErr() (err error) {
+	switch w.ErrStyle {
+	case 1:
+		return fmt.Errorf("model db: %w", context.DeadlineExceeded)
+	case 2:
+		return fmt.Errorf("model db: %w", &net.OpError{Op: "read", Net: "tcp", Err: os.ErrDeadlineExceeded})
+	default:
+		return errVC03DB
+	}
+}
 
 // resetRuntime forgets what earlier requests left in the observations.
 func (w *vc03World) resetRuntime() {
@@ -231,6 +352,21 @@ func vc03GenWorld(t *rapid.T) (w *vc03World) {
 			Password: vc03From(t, "password", vc03Passwords),
 		}
 
+		d.HashOf = d.Password
+		switch vc03Pick(t, "hash", 50, 10, 12, 28) {
+		case 0:
+			d.Hash = vc03HashValid
+		case 1:
+			d.Hash = vc03HashOther
+			for d.HashOf == d.Password {
+				d.HashOf = vc03From(t, "hashOf", vc03Passwords)
+			}
+		case 2:
+			d.Hash = vc03HashAllow
+		default:
+			d.Hash = vc03HashEmpty + vc03Uniform(t, "hashUnusable", vc03HashKinds-vc03HashEmpty)
+		}
+
 		if nextLinked < len(linkedPool) && vc03Chance(t, "hasLinked", 50) {
 			d.Linked = linkedPool[nextLinked]
 			nextLinked++
@@ -288,14 +424,9 @@ func (w *vc03World) build() {
 		case vc03AuthOffDoHFlag:
 			auth.DoHAuthOnly = true
 		case vc03AuthOn, vc03AuthOnDoHOnly:
-			want := d.Password
 			auth.Enabled = true
 			auth.DoHAuthOnly = d.Auth == vc03AuthOnDoHOnly
-			auth.PasswordHash = &agdtest.Authenticator{
-				OnAuthenticate: func(_ context.Context, passwd []byte) (ok bool) {
-					return string(passwd) == want
-				},
-			}
+			auth.PasswordHash = d.authenticator()
 		}
 
 		d.d = &agd.Device{
@@ -450,7 +581,7 @@ func (w *vc03World) db() (db *agdtest.ProfileDB) {
 			}
 
 			if faulty() {
-				return nil, nil, errVC03DB
+				return nil, nil, w.dbErr()
 			}
 
 			mp := w.profByID(string(id))
@@ -488,7 +619,7 @@ func (w *vc03World) db() (db *agdtest.ProfileDB) {
 			}
 
 			if faulty() {
-				return nil, nil, errVC03DB
+				return nil, nil, w.dbErr()
 			}
 
 			return w.answer(w.devByDedicated(ip))
@@ -497,7 +628,7 @@ func (w *vc03World) db() (db *agdtest.ProfileDB) {
 		OnProfileByDeviceID: func(_ context.Context, id agd.DeviceID) (*agd.Profile, *agd.Device, error) {
 			checkDevID(id)
 			if faulty() {
-				return nil, nil, errVC03DB
+				return nil, nil, w.dbErr()
 			}
 
 			return w.answer(w.devByID(string(id)))
@@ -517,7 +648,7 @@ func (w *vc03World) db() (db *agdtest.ProfileDB) {
 			}
 
 			if faulty() {
-				return nil, nil, errVC03DB
+				return nil, nil, w.dbErr()
 			}
 
 			mp := w.profByID(string(id))
@@ -539,7 +670,7 @@ func (w *vc03World) db() (db *agdtest.ProfileDB) {
 			}
 
 			if faulty() {
-				return nil, nil, errVC03DB
+				return nil, nil, w.dbErr()
 			}
 
 			return w.answer(w.devByLinked(ip))
@@ -583,6 +714,11 @@ type vc03Case struct {
 	UI     *vc03Userinfo
 	SNI    string
 	HasOPT bool
+	// Opts2, if not nil, are the options of a second OPT record.
+	Opts2 []vc03Opt
+	// Mapped: the servers report IPv4 addresses in the IPv4-mapped IPv6 form,
+	// as a dual-stack socket does.
+	Mapped bool
 	Opts   []vc03Opt
 	Laddr  netip.AddrPort
 	Raddr  netip.AddrPort
@@ -744,7 +880,8 @@ func vc03GenSettings(t *rapid.T, w *vc03World, proto agd.Protocol) (c *vc03Case)
 
 // vc03GenRequest draws the request side of a case.
 func vc03GenRequest(t *rapid.T, c *vc03Case) {
-	c.Path, c.UI, c.SNI, c.HasOPT, c.Opts, c.Notes = "", nil, "", false, nil, nil
+	c.Path, c.UI, c.SNI, c.HasOPT, c.Opts, c.Opts2, c.Notes = "", nil, "", false, nil, nil, nil
+	c.Mapped = vc03Chance(t, "mapped", 20)
 
 	isDoH := c.Proto == agd.ProtoDoH
 	hasTLS := isDoH || c.Proto == agd.ProtoDoT || c.Proto == agd.ProtoDoQ
@@ -870,7 +1007,7 @@ func vc03NearMiss(t *rapid.T, c *vc03Case) (n *vc03Case, what string) {
 		case vc03Chance(t, "nearPwUnset", 30):
 			ui.PwSet, ui.Pw, ui.Kind = false, "", "unset"
 		default:
-			ui.PwSet, ui.Pw, ui.Kind = true, right+"x", "wrong"
+			ui.PwSet, ui.Pw, ui.Kind = true, vc03WrongPassword(t, right), "wrong"
 		}
 
 		n.UI = &ui
@@ -902,7 +1039,7 @@ func vc03NearMiss(t *rapid.T, c *vc03Case) (n *vc03Case, what string) {
 	case "sni":
 		n.SNI = vc03GenSNI(t, n)
 	case "edns":
-		n.HasOPT, n.Opts = false, nil
+		n.HasOPT, n.Opts, n.Opts2 = false, nil, nil
 		vc03GenEDNS(t, n)
 	case "laddr":
 		vc03GenLaddr(t, n)
@@ -995,28 +1132,58 @@ func vc03GenUserinfo(t *rapid.T, w *vc03World) (ui *vc03Userinfo) {
 		ui.PwSet, ui.Pw, ui.Kind = true, "", "empty"
 	default:
 		ui.PwSet, ui.Kind = true, "wrong"
-		switch vc03Pick(t, "wrongKind", 30, 25, 25, 20) {
-		case 0:
-			for _, p := range vc03Passwords {
-				if p != right {
-					ui.Pw = p
+		ui.Pw = vc03WrongPassword(t, right)
+	}
 
-					break
-				}
-			}
-		case 1:
-			ui.Pw = right + "x"
-		case 2:
-			ui.Pw = right[:len(right)-1]
-		default:
-			ui.Pw = strings.ToUpper(right)
-			if ui.Pw == right {
-				ui.Pw = strings.ToLower(right)
-			}
-		}
+	// The password the stored hash was really made from, if that is another
+	// one.
+	if named != nil && named.HashOf != named.Password && vc03Chance(t, "pwHashOf", 35) {
+		ui.PwSet, ui.Pw, ui.Kind = true, named.HashOf, "hash-of"
 	}
 
 	return ui
+}
+
+// vc03WrongPassword draws a password that is not right: another one or a near
+// miss of the right one.
+func vc03WrongPassword(t *rapid.T, right string) (pw string) {
+	switch vc03Pick(t, "wrongKind", 15, 10, 10, 15, 15, 15, 5, 10, 5) {
+	case 0:
+		for _, p := range vc03Passwords {
+			if p != right {
+				return p
+			}
+		}
+
+		return right + "y"
+	case 1:
+		return right + "x"
+	case 2:
+		return right[:len(right)-1]
+	case 3:
+		// Letter case changed.
+		if up := strings.ToUpper(right); up != right {
+			return up
+		}
+
+		return strings.ToLower(right)
+	case 4:
+		// One character changed.
+		b := []byte(right)
+		i := vc03Uniform(t, "wrongPos", len(b))
+		b[i] ^= 0x01
+
+		return string(b)
+	case 5:
+		return right + " "
+	case 6:
+		return " " + right
+	case 7:
+		// Longer than what bcrypt looks at, sharing nothing with the right one.
+		return strings.Repeat("Zq9", 34)
+	default:
+		return right + "\x00"
+	}
 }
 
 func vc03GenSNI(t *rapid.T, c *vc03Case) (sni string) {
@@ -1098,6 +1265,12 @@ func vc03GenEDNS(t *rapid.T, c *vc03Case) {
 		c.HasOPT = true
 		c.Opts = []vc03Opt{cpe(), cpe()}
 		c.Notes = append(c.Notes, "cpe-duplicated")
+	}
+
+	// The OPT record itself given twice.
+	if c.HasOPT && vc03Chance(t, "opt2", 8) {
+		c.Opts2 = []vc03Opt{cpe()}
+		c.Notes = append(c.Notes, "opt-record-duplicated")
 	}
 }
 
@@ -1184,6 +1357,16 @@ func (c *vc03Case) msg() (req *dns.Msg) {
 
 	req.Extra = append(req.Extra, opt)
 
+	if c.Opts2 != nil {
+		opt2 := &dns.OPT{Hdr: dns.RR_Header{Name: ".", Rrtype: dns.TypeOPT}}
+		opt2.SetUDPSize(1232)
+		for _, o := range c.Opts2 {
+			opt2.Option = append(opt2.Option, &dns.EDNS0_LOCAL{Code: o.Code, Data: []byte(o.Data)})
+		}
+
+		req.Extra = append(req.Extra, opt2)
+	}
+
 	return req
 }
 
@@ -1197,8 +1380,8 @@ func (c *vc03Case) describe() (m map[string]any) {
 	devs := []string{}
 	for _, d := range c.World.Devs {
 		devs = append(devs, fmt.Sprintf(
-			"%s owner=%s attached=%t auth=%s pw=%q linked=%v dedicated=%v human=%q",
-			d.ID, c.World.Profs[d.Owner].ID, d.Attached, vc03AuthNames[d.Auth], d.Password, d.Linked, d.Dedicated, d.Human,
+			"%s owner=%s attached=%t auth=%s pw=%q hash=%s(of %q) linked=%v dedicated=%v human=%q",
+			d.ID, c.World.Profs[d.Owner].ID, d.Attached, vc03AuthNames[d.Auth], d.Password, vc03HashNames[d.Hash], d.HashOf, d.Linked, d.Dedicated, d.Human,
 		))
 	}
 
@@ -1214,6 +1397,8 @@ func (c *vc03Case) describe() (m map[string]any) {
 		"sni":       c.SNI,
 		"has_opt":   c.HasOPT,
 		"opts":      fmt.Sprintf("%v", c.Opts),
+		"opts2":     fmt.Sprintf("%v", c.Opts2),
+		"mapped":    c.Mapped,
 		"laddr":     c.Laddr.String(),
 		"raddr":     c.Raddr.String(),
 	}
@@ -1292,6 +1477,8 @@ type vc03Opts struct {
 	Quirk bool
 	// CPEPick is the index, among the CPE-ID options, of the one that counts.
 	CPEPick int
+	// OPTReading is the reading of a message with two OPT records.
+	OPTReading int
 }
 
 func vc03ValidDevID(s string) (ok bool) {
@@ -1386,11 +1573,34 @@ func (c *vc03Case) sniLabel() (label string, ok bool) {
 }
 
 func (c *vc03Case) cpeOpts() (opts []vc03Opt) {
+	return c.cpeOptsOf(vc03OPTLast)
+}
+
+// Readings of a message with two OPT records.
+const (
+	vc03OPTLast  = iota // the last record counts (what the message library hands out)
+	vc03OPTFirst        // the first record counts
+	vc03OPTAll          // the options of both count, in order
+)
+
+// cpeOptsOf returns the CPE-ID options under the given reading of a message
+// with two OPT records; with one record all readings are the same.
+func (c *vc03Case) cpeOptsOf(reading int) (opts []vc03Opt) {
 	if !c.HasOPT {
 		return nil
 	}
 
-	for _, o := range c.Opts {
+	src := c.Opts
+	switch {
+	case c.Opts2 == nil:
+		// One record.
+	case reading == vc03OPTLast:
+		src = c.Opts2
+	case reading == vc03OPTAll:
+		src = append(slices.Clone(c.Opts), c.Opts2...)
+	}
+
+	for _, o := range src {
 		if o.Code == devicefinder.DnsmasqCPEIDOption {
 			opts = append(opts, o)
 		}
@@ -1519,7 +1729,7 @@ func vc03Oracle(c *vc03Case, o vc03Opts) (v vc03Verdict) {
 	}
 
 	// Plain DNS.
-	if cpe := c.cpeOpts(); len(cpe) > 0 {
+	if cpe := c.cpeOptsOf(o.OPTReading); len(cpe) > 0 {
 		id := cpe[o.CPEPick].Data
 		if !vc03ValidDevID(id) {
 			return vc03Verdict{Kind: vc03Error, Via: "cpe", Why: "bad-device-id"}
@@ -1603,14 +1813,7 @@ func (c *vc03Case) authRefusal(d *vc03Dev) (why string) {
 	}
 
 	if c.Proto == agd.ProtoDoH && c.UI != nil {
-		switch {
-		case !c.UI.PwSet:
-			return "password-unset"
-		case c.UI.Pw == "":
-			return "password-empty"
-		case c.UI.Pw != d.Password:
-			return "password-wrong"
-		}
+		return d.passwordRefusal(c.UI)
 	}
 
 	return ""
@@ -1631,17 +1834,31 @@ func vc03Acceptable(c *vc03Case) (vs []vc03Verdict) {
 		}
 	}
 
-	cpeFolds := []bool{false}
-	picks := []int{0}
-	if c.Proto == agd.ProtoDNS {
-		cpe := c.cpeOpts()
-		for i, o := range cpe {
-			if strings.ToLower(o.Data) != o.Data {
-				cpeFolds = []bool{false, true}
-			}
+	type cpeReading struct {
+		all  int
+		pick int
+	}
 
-			if i > 0 && o.Data != cpe[0].Data {
-				picks = append(picks, i)
+	cpeFolds := []bool{false}
+	readings := []cpeReading{{}}
+	if c.Proto == agd.ProtoDNS {
+		alls := []int{vc03OPTLast}
+		if c.Opts2 != nil {
+			alls = append(alls, vc03OPTFirst, vc03OPTAll)
+		}
+
+		readings = nil
+		for _, all := range alls {
+			readings = append(readings, cpeReading{all: all})
+			cpe := c.cpeOptsOf(all)
+			for i, o := range cpe {
+				if strings.ToLower(o.Data) != o.Data {
+					cpeFolds = []bool{false, true}
+				}
+
+				if i > 0 && o.Data != cpe[0].Data {
+					readings = append(readings, cpeReading{all: all, pick: i})
+				}
 			}
 		}
 	}
@@ -1649,8 +1866,8 @@ func vc03Acceptable(c *vc03Case) (vs []vc03Verdict) {
 	for _, fu := range userFolds {
 		for _, q := range quirks {
 			for _, fc := range cpeFolds {
-				for _, pick := range picks {
-					vs = append(vs, vc03Oracle(c, vc03Opts{FoldUser: fu, Quirk: q, FoldCPE: fc, CPEPick: pick}))
+				for _, r := range readings {
+					vs = append(vs, vc03Oracle(c, vc03Opts{FoldUser: fu, Quirk: q, FoldCPE: fc, CPEPick: r.pick, OPTReading: r.all}))
 				}
 			}
 		}
@@ -1772,7 +1989,7 @@ func (c *vc03Case) carries(p *agd.Profile, d *agd.Device) (ok bool) {
 	case agd.ProtoDoT, agd.ProtoDoQ:
 		return sniOK()
 	case agd.ProtoDNS:
-		for _, o := range c.cpeOpts() {
+		for _, o := range c.cpeOptsOf(vc03OPTAll) {
 			if strings.EqualFold(o.Data, string(d.ID)) {
 				return true
 			}
@@ -1799,9 +2016,11 @@ func vc03Invariants(c *vc03Case, g vc03Got) (violated string) {
 	if c.Proto == agd.ProtoDoH && c.UI != nil && g.Kind == vc03OK {
 		for _, d := range w.Devs {
 			authOn := d.Auth == vc03AuthOn || d.Auth == vc03AuthOnDoHOnly
-			if authOn && w.state(d) == vc03LookOK && strings.EqualFold(d.ID, c.UI.User) &&
-				(!c.UI.PwSet || c.UI.Pw != d.Password) {
-				return fmt.Sprintf("I6: bad password (%s) supplied for device %s with authentication enabled, yet the request is recognised", c.UI.Kind, d.ID)
+			if authOn && w.state(d) == vc03LookOK && strings.EqualFold(d.ID, c.UI.User) && d.passwordRefusal(c.UI) != "" {
+				return fmt.Sprintf(
+					"I6: bad password (%s: %s) supplied for device %s with authentication enabled (stored hash: %s), yet the request is recognised",
+					c.UI.Kind, d.passwordRefusal(c.UI), d.ID, vc03HashNames[d.Hash],
+				)
 			}
 		}
 	}
@@ -1858,7 +2077,7 @@ func vc03Invariants(c *vc03Case, g vc03Got) (violated string) {
 	}
 
 	auth := g.Dev.Auth
-	credsOK := c.Proto == agd.ProtoDoH && c.UI != nil && c.UI.PwSet && c.UI.Pw == md.Password
+	credsOK := c.Proto == agd.ProtoDoH && c.UI != nil && md.passwordRefusal(c.UI) == ""
 	if auth.Enabled && auth.DoHAuthOnly && !credsOK {
 		return "I4: DoH-only device recognised on another transport or without correct credentials"
 	}
@@ -1962,7 +2181,7 @@ func (c *vc03Case) references() (ok bool) {
 		}
 	}
 
-	for _, o := range c.Opts {
+	for _, o := range append(slices.Clone(c.Opts), c.Opts2...) {
 		if names(o.Data) {
 			return true
 		}
@@ -1998,7 +2217,7 @@ func (c *vc03Case) namedDevices() (n int) {
 		mark(c.SNI[:i])
 	}
 
-	for _, o := range c.Opts {
+	for _, o := range append(slices.Clone(c.Opts), c.Opts2...) {
 		mark(o.Data)
 	}
 
@@ -2011,6 +2230,15 @@ func (c *vc03Case) namedDevices() (n int) {
 	}
 
 	return len(named)
+}
+
+// vc03UserOf returns the basic-auth user of the case, if any.
+func vc03UserOf(c *vc03Case) (user string) {
+	if c.UI == nil {
+		return ""
+	}
+
+	return c.UI.User
 }
 
 func (p *vc03Prof) pOrStub() (ap *agd.Profile) {
@@ -2062,6 +2290,15 @@ func vc03Record(st *vstat.Stats, c *vc03Case, vs []vc03Verdict, matched int, g v
 				classes = append(classes, "right-password-ok")
 			}
 
+			if (v.Dev.Auth == vc03AuthOn || v.Dev.Auth == vc03AuthOnDoHOnly) && c.UI != nil {
+				switch v.Dev.Hash {
+				case vc03HashValid, vc03HashOther:
+					classes = append(classes, "auth-real-bcrypt-right", "auth-right:"+vc03HashNames[v.Dev.Hash])
+				case vc03HashAllow:
+					classes = append(classes, "auth-allow-all-any-password", "auth-allow-all:"+c.UI.Kind)
+				}
+			}
+
 			if v.Dev.Auth == vc03AuthOn && c.UI == nil {
 				classes = append(classes, "auth-on-without-userinfo-ok")
 			}
@@ -2080,6 +2317,15 @@ func vc03Record(st *vstat.Stats, c *vc03Case, vs []vc03Verdict, matched int, g v
 		}
 	case vc03AuthFail:
 		classes = append(classes, "authfail:"+v.Why)
+		if d := w.devByID(strings.ToLower(vc03UserOf(c))); d != nil && c.UI != nil && c.UI.PwSet {
+			switch {
+			case v.Why == "unusable-hash":
+				classes = append(classes, "auth-unusable-hash-any-password",
+					"auth-unusable:"+vc03HashNames[d.Hash], "auth-unusable-pw:"+c.UI.Kind)
+			case v.Why == "password-wrong" || v.Why == "password-empty":
+				classes = append(classes, "auth-real-bcrypt-wrong", "auth-wrong:"+vc03HashNames[d.Hash])
+			}
+		}
 	case vc03Nil:
 		classes = append(classes, "nil:"+v.Why)
 		if v.Creates {
@@ -2161,11 +2407,19 @@ func (c *vc03Case) ctx() (ctx context.Context) {
 
 // netAddrs returns the addresses as the servers of the transport report them.
 func (c *vc03Case) netAddrs() (laddr, raddr net.Addr) {
+	form := func(ap netip.AddrPort) (res netip.AddrPort) {
+		if c.Mapped && ap.Addr().Is4() {
+			return netip.AddrPortFrom(netip.AddrFrom16(ap.Addr().As16()), ap.Port())
+		}
+
+		return ap
+	}
+
 	switch c.Proto {
 	case agd.ProtoDoT, agd.ProtoDoH:
-		return net.TCPAddrFromAddrPort(c.Laddr), net.TCPAddrFromAddrPort(c.Raddr)
+		return net.TCPAddrFromAddrPort(form(c.Laddr)), net.TCPAddrFromAddrPort(form(c.Raddr))
 	default:
-		return net.UDPAddrFromAddrPort(c.Laddr), net.UDPAddrFromAddrPort(c.Raddr)
+		return net.UDPAddrFromAddrPort(form(c.Laddr)), net.UDPAddrFromAddrPort(form(c.Raddr))
 	}
 }
 
@@ -2178,11 +2432,12 @@ var vc03Required = []string{
 	"nontrivial",
 	"channels-conflict", "fault:db-error", "fault:ctx-cancelled-create",
 	"near-miss", "near-miss-flips-verdict",
+	"auth-real-bcrypt-right", "auth-real-bcrypt-wrong", "auth-unusable-hash-any-password", "auth-allow-all-any-password",
 	"ok-via-userinfo", "ok-via-path", "ok-via-sni", "ok-via-cpe", "ok-via-dedicated", "ok-via-linked",
 	"ok-via-humanid", "ok-auto-created", "ok-sni-case-variant",
 	"dohonly-ok", "right-password-ok",
 	"authfail:dohonly-not-doh", "authfail:dohonly-no-credentials",
-	"authfail:password-unset", "authfail:password-empty", "authfail:password-wrong",
+	"authfail:password-unset", "authfail:password-empty", "authfail:password-wrong", "authfail:unusable-hash",
 	"nil:deleted", "nil:detached", "nil:profile-missing",
 	"address-ignored-on-encrypted", "cpe-ignored-on-encrypted", "linked-ip-disabled-ignored",
 	"dnscrypt-with-identifier", "sni-nested", "sni-suffix-trick",
@@ -2255,7 +2510,9 @@ func TestVerifC03Middleware(t *testing.T) {
 		"the same generated cases sent through ratelimitmw.Middleware.Wrap (one long-lived middleware per transport, real finder behind it); the next handler's agd.RequestInfo is compared with the decision table; non-trivial as in devicefinder.find",
 		"nontrivial", "mw:profile-visible", "mw:served-anonymous-after-authfail", "mw:served-anonymous",
 		"mw:dropped-unknown-dedicated", "mw:failed-with-error", "mw:reused-middleware",
-		"mw:near-miss", "mw:near-miss-flips-verdict", "mw:anonymous-after-profile", "mw:profile-after-other-profile")
+		"mw:near-miss", "mw:near-miss-flips-verdict", "mw:anonymous-after-profile", "mw:profile-after-other-profile",
+		"mw:process-lived-middleware", "mw:ipv4-mapped-addresses", "opt-record-duplicated",
+		"auth-real-bcrypt-right", "auth-real-bcrypt-wrong", "auth-unusable-hash-any-password", "auth-allow-all-any-password")
 	st.Finish(t)
 
 	global := agdtest.NewConstructor(t)
@@ -2267,6 +2524,13 @@ func TestVerifC03Middleware(t *testing.T) {
 		h    dnsserver.Handler
 	}
 
+	// The production metrics, as cmd installs them.
+	prodMetrics, err := metrics.NewDefaultRatelimitMiddleware("vc03", prometheus.NewRegistry())
+	if err != nil {
+		t.Fatalf("creating metrics: %v", err)
+	}
+
+	var mwMetrics ratelimitmw.Metrics = ratelimitmw.EmptyMetrics{}
 	newStack := func(proto agd.Protocol) (s *stack) {
 		s = &stack{sw: &vc03SwitchFinder{}, seen: &vc03Seen{}}
 		mw := ratelimitmw.New(&ratelimitmw.Config{
@@ -2285,7 +2549,7 @@ func TestVerifC03Middleware(t *testing.T) {
 			GeoIP: &agdtest.GeoIP{
 				OnData: func(string, netip.Addr) (*geoip.Location, error) { return nil, nil },
 			},
-			Metrics:    ratelimitmw.EmptyMetrics{},
+			Metrics:    mwMetrics,
 			Limiter:    agdtest.NewRateLimit(),
 			Protocols:  nil,
 			EDEEnabled: true,
@@ -2318,6 +2582,15 @@ func TestVerifC03Middleware(t *testing.T) {
 		return s
 	}
 
+	mwMetrics = prodMetrics
+	procStacks := map[agd.Protocol]*stack{}
+	procLastKind := map[agd.Protocol]vc03Got{}
+	for _, proto := range vc03Protos {
+		procStacks[proto] = newStack(proto)
+	}
+
+	mwMetrics = ratelimitmw.EmptyMetrics{}
+
 	// serve sends one case through the stack and checks what came out.
 	serve := func(t *rapid.T, s *stack, c *vc03Case) (primary vc03Verdict, g vc03Got) {
 		*s.seen = vc03Seen{}
@@ -2326,6 +2599,10 @@ func TestVerifC03Middleware(t *testing.T) {
 		ctx := c.ctx()
 		rw := dnsserver.NewNonWriterResponseWriter(c.netAddrs())
 		req := c.msg()
+		if c.Mapped && (c.Laddr.Addr().Is4() || c.Raddr.Addr().Is4()) {
+			st.Class("mw:ipv4-mapped-addresses")
+		}
+
 		err := s.h.ServeDNS(ctx, rw, req)
 
 		if s.sw.calls != 1 {
@@ -2417,6 +2694,13 @@ func TestVerifC03Middleware(t *testing.T) {
 		// alone.
 		stacks := map[agd.Protocol]*stack{}
 		lastKind := map[agd.Protocol]vc03Got{}
+		if vc03Chance(t, "processLived", 30) {
+			// The middlewares that live as long as the process, with whatever
+			// the requests of earlier cases left in their pools.  A failure
+			// that needs that history is reported, but rapid cannot replay it.
+			stacks, lastKind = procStacks, procLastKind
+			st.Class("mw:process-lived-middleware")
+		}
 		n := 1 + vc03Uniform(t, "requests", 4)
 		var prev *vc03Case
 		var prevVerdict vc03Verdict
